@@ -1,9 +1,192 @@
 package c31
 
 import (
+	"context"
+	"fmt"
+	"sync"
+	"sync/atomic"
 	"testing"
+	"time"
+
+	"github.com/twmb/franz-go/pkg/kfake"
+	"github.com/twmb/franz-go/pkg/kgo"
 
 	"verifharness/internal/vh"
 )
 
-func runE2E(t *testing.T, r *vh.Run) {}
+// e2eMember is one BlockRebalanceOnPoll group member. busy is set after
+// PollRecords returned records and cleared just before AllowRebalance: a
+// revoked/lost callback that sees it set ran while a record-returning poll
+// was outstanding.
+type e2eMember struct {
+	name      string
+	cl        *kgo.Client
+	busy      atomic.Bool
+	callbacks atomic.Int64
+	records   atomic.Int64
+	polls     atomic.Int64
+	bad       atomic.Int64
+	badWhat   atomic.Value
+}
+
+func newE2EMember(name string, addrs []string, group, topic string) (*e2eMember, error) {
+	m := &e2eMember{name: name}
+	cb := func(kind string) func(context.Context, *kgo.Client, map[string][]int32) {
+		return func(_ context.Context, _ *kgo.Client, parts map[string][]int32) {
+			m.callbacks.Add(1)
+			if m.busy.Load() {
+				m.bad.Add(1)
+				m.badWhat.Store(fmt.Sprintf("member %s: %s%v ran while a poll that returned records was outstanding (before AllowRebalance)", name, kind, parts))
+			}
+		}
+	}
+	cl, err := kgo.NewClient(
+		kgo.SeedBrokers(addrs...),
+		kgo.ConsumerGroup(group),
+		kgo.ConsumeTopics(topic),
+		kgo.BlockRebalanceOnPoll(),
+		kgo.OnPartitionsRevoked(cb("OnPartitionsRevoked")),
+		kgo.OnPartitionsLost(cb("OnPartitionsLost")),
+		kgo.FetchMaxWait(100*time.Millisecond),
+		kgo.HeartbeatInterval(100*time.Millisecond),
+		kgo.SessionTimeout(10*time.Second),
+		kgo.RebalanceTimeout(10*time.Second),
+	)
+	if err != nil {
+		return nil, err
+	}
+	m.cl = cl
+	return m, nil
+}
+
+// pollLoop polls until ctx is done, as a BlockRebalanceOnPoll user must:
+// every poll is followed by AllowRebalance.
+func (m *e2eMember) pollLoop(ctx context.Context, work time.Duration) {
+	for ctx.Err() == nil {
+		pctx, cancel := context.WithTimeout(ctx, 150*time.Millisecond)
+		fs := m.cl.PollRecords(pctx, 20)
+		cancel()
+		m.polls.Add(1)
+		if n := fs.NumRecords(); n > 0 {
+			m.busy.Store(true)
+			m.records.Add(int64(n))
+			time.Sleep(work) // processing
+			m.busy.Store(false)
+		}
+		m.cl.AllowRebalance()
+	}
+}
+
+func runE2E(t *testing.T, r *vh.Run) {
+	cycles := r.Pick(5, 60)
+	done := make(chan string, 1)
+	var members sync.Map
+	var evals, callbacks, records, polls atomic.Int64
+	go func() {
+		done <- func() string {
+			c, err := kfake.NewCluster(kfake.NumBrokers(1), kfake.SeedTopics(6, "c31"))
+			if err != nil {
+				return "kfake: " + err.Error()
+			}
+			defer c.Close()
+			addrs := c.ListenAddrs()
+			ctx, cancel := context.WithCancel(context.Background())
+			defer cancel()
+
+			// producer keeps every partition non-empty
+			pcl, err := kgo.NewClient(kgo.SeedBrokers(addrs...), kgo.DefaultProduceTopic("c31"), kgo.RecordPartitioner(kgo.RoundRobinPartitioner()))
+			if err != nil {
+				return "producer: " + err.Error()
+			}
+			defer pcl.Close()
+			var pwg sync.WaitGroup
+			pwg.Add(1)
+			go func() {
+				defer pwg.Done()
+				for ctx.Err() == nil {
+					for i := 0; i < 12; i++ {
+						pcl.Produce(ctx, kgo.StringRecord("v"), nil)
+					}
+					pcl.Flush(ctx)
+					select {
+					case <-ctx.Done():
+					case <-time.After(20 * time.Millisecond):
+					}
+				}
+			}()
+			defer pwg.Wait()
+			defer cancel()
+
+			finish := func(m *e2eMember) {
+				callbacks.Add(m.callbacks.Load())
+				records.Add(m.records.Load())
+				polls.Add(m.polls.Load())
+				evals.Add(m.callbacks.Load())
+				if m.bad.Load() > 0 {
+					members.Store(m.name, m.badWhat.Load())
+				}
+			}
+
+			a, err := newE2EMember("A", addrs, "c31-group", "c31")
+			if err != nil {
+				return "member A: " + err.Error()
+			}
+			actx, acancel := context.WithCancel(ctx)
+			var awg sync.WaitGroup
+			awg.Add(1)
+			go func() { defer awg.Done(); a.pollLoop(actx, 3*time.Millisecond) }()
+			defer func() { acancel(); awg.Wait(); a.cl.AllowRebalance(); a.cl.Close(); finish(a) }()
+
+			rng := r.Rand("c31-e2e", 0)
+			for cyc := 0; cyc < cycles; cyc++ {
+				// wait until A consumes, then let B join (rebalance: A revokes), consume, and leave (A regains)
+				for i := 0; i < 200 && a.records.Load() == 0; i++ {
+					time.Sleep(10 * time.Millisecond)
+				}
+				b, err := newE2EMember(fmt.Sprintf("B%d", cyc), addrs, "c31-group", "c31")
+				if err != nil {
+					return "member B: " + err.Error()
+				}
+				bctx, bcancel := context.WithCancel(ctx)
+				var bwg sync.WaitGroup
+				bwg.Add(1)
+				go func() { defer bwg.Done(); b.pollLoop(bctx, time.Duration(1+rng.IntN(5))*time.Millisecond) }()
+				before := b.records.Load()
+				for i := 0; i < 400 && b.records.Load() == before; i++ {
+					time.Sleep(10 * time.Millisecond)
+				}
+				time.Sleep(time.Duration(20+rng.IntN(80)) * time.Millisecond)
+				bcancel()
+				bwg.Wait()
+				b.cl.AllowRebalance()
+				b.cl.Close() // leaves the group: its partitions are revoked, A is rebalanced
+				finish(b)
+			}
+			return ""
+		}()
+	}()
+	select {
+	case msg := <-done:
+		if msg != "" {
+			r.Inconclusive("end-to-end twin could not run: " + msg)
+		}
+	case <-time.After(time.Duration(r.Pick(120, 900)) * time.Second):
+		r.Inconclusive("end-to-end twin did not finish within its wall-clock budget: timing only, not judged")
+		return
+	}
+	members.Range(func(k, v any) bool {
+		r.Violation("e2e-rebalance-callback-during-outstanding-poll", map[string]any{"what": v})
+		return true
+	})
+	r.Eval(int(evals.Load()))
+	r.Count("e2e_member_joins", cycles+1)
+	r.Count("e2e_revoked_or_lost_callbacks_judged", int(callbacks.Load()))
+	r.Count("e2e_records_polled", int(records.Load()))
+	r.Count("e2e_polls", int(polls.Load()))
+	if callbacks.Load() == 0 {
+		r.Inconclusive("end-to-end twin observed no revoked/lost callback")
+	} else {
+		r.Distinct("e2e-callbacks-observed")
+	}
+	r.Sample(map[string]any{"kind": "end-to-end twin", "member_joins": cycles + 1, "callbacks": callbacks.Load(), "records": records.Load(), "polls": polls.Load()})
+}
